@@ -82,8 +82,13 @@ func TestWorker(t *testing.T) {
 		curSeed.Store(seed)
 		fmt.Printf("BEGIN %d\n", seed)
 		v := variant
-		if os.Getenv("SIM_VARIANT_SWEEP") != "" {
-			v = int(seed-start) + variant
+		if b := os.Getenv("SIM_VARIANT_BASE"); b != "" {
+			// thorough tier: the variant (systematic dimension index) is the run's
+			// position in the whole batch, every second run (the others stay random)
+			base, _ := strconv.ParseUint(b, 10, 64)
+			if (seed-base)%2 == 0 {
+				v = int((seed - base) / 2)
+			}
 		}
 		res := RunOne(t, RunReq{Prop: prop, Seed: seed, Tier: tier, Variant: v,
 			Trace: os.Getenv("SIM_TRACE"), Dump: os.Getenv("SIM_DUMP"), Verbose: os.Getenv("SIM_VERBOSE") != ""})
